@@ -67,7 +67,21 @@ func classifyRun(err error) string {
 	return "err:" + clipWords(reDigits.ReplaceAllString(s, "N"), 240)
 }
 
+// engineX: the knobs of round 4.
+//
+//	afterDecode  runs between config decoding (the gun factories resolve their target there) and Engine.Run
+//	phout        when set: the pool keeps the REAL phout aggregator of its config (`result: {type: phout, destination: phout}`,
+//	             samples are pooled and released by the aggregator) and the samples are read back from that file
+type engineX struct {
+	afterDecode func()
+	phout       string
+}
+
 func runEngine(yamlConf string, timeout time.Duration, debug bool) shot.Result {
+	return runEngineX(yamlConf, timeout, debug, engineX{})
+}
+
+func runEngineX(yamlConf string, timeout time.Duration, debug bool, x engineX) shot.Result {
 	shot.Init()
 	mapCfg := map[string]any{}
 	if err := yaml.Unmarshal([]byte(yamlConf), &mapCfg); err != nil {
@@ -78,8 +92,13 @@ func runEngine(yamlConf string, timeout time.Duration, debug bool) shot.Result {
 		return shot.Result{Class: "config:" + clipWords(reDigits.ReplaceAllString(err.Error(), "N"), 100)}
 	}
 	rec := &shot.Rec{}
-	for i := range conf.Engine.Pools {
-		conf.Engine.Pools[i].Aggregator = rec
+	if x.phout == "" {
+		for i := range conf.Engine.Pools {
+			conf.Engine.Pools[i].Aggregator = rec
+		}
+	}
+	if x.afterDecode != nil {
+		x.afterDecode()
 	}
 	log := zap.NewNop()
 	if debug {
@@ -103,6 +122,9 @@ func runEngine(yamlConf string, timeout time.Duration, debug bool) shot.Result {
 	select {
 	case <-w:
 	case <-time.After(2 * time.Second):
+	}
+	if x.phout != "" {
+		return shot.Result{Class: class, Samples: readPhout(x.phout)}
 	}
 	return shot.Result{Class: class, Samples: rec.Snapshot()}
 }
